@@ -3,7 +3,8 @@
 //! Same algorithm as `JvmsRaw.Walk` in /verif/lean/FeatherModel/Spec/JvmsRaw.lean (the two are compared by the op
 //! `jvms-frame`): it follows constant-pool slots, counts and `attribute_length`s, checks for every predefined attribute
 //! that its body has the JVMS shape and exactly `attribute_length` bytes, and accepts iff the input is consumed exactly.
-//! `known = true` additionally refuses the region of the open defect of raw_class_file (long/double pool entries).
+//! A long or double entry takes two constant-pool indices (§4.4.5); an entry that ends past `constant_pool_count - 1` is
+//! malformed.
 
 type P<'a> = Option<&'a [u8]>;
 
@@ -71,7 +72,7 @@ fn utf8_at<'a>(pool: &Utf8s<'a>, i: usize) -> Option<&'a [u8]> {
 	pool.iter().rev().find(|(k, _)| *k == i).map(|(_, v)| *v)
 }
 
-fn attr_info<'a>(known: bool, pool: &Utf8s<'_>, fuel: usize, b: &'a [u8]) -> P<'a> {
+fn attr_info<'a>(pool: &Utf8s<'_>, fuel: usize, b: &'a [u8]) -> P<'a> {
 	if fuel == 0 { return None; }
 	let f = fuel - 1;
 	let (ni, r1) = n2(b)?;
@@ -80,7 +81,7 @@ fn attr_info<'a>(known: bool, pool: &Utf8s<'_>, fuel: usize, b: &'a [u8]) -> P<'
 	let name = utf8_at(pool, ni)?;
 	let body = &r2[..len];
 	let rest = &r2[len..];
-	let attributes = |x: &'a [u8]| -> P<'a> { tbl2(&|y| attr_info(known, pool, f, y), x) };
+	let attributes = |x: &'a [u8]| -> P<'a> { tbl2(&|y| attr_info(pool, f, y), x) };
 	let res: Option<P<'a>> = match name {
 		b"ConstantValue" => Some(skip(2, body)),
 		b"Code" => Some((|| {
@@ -124,7 +125,7 @@ fn attr_info<'a>(known: bool, pool: &Utf8s<'_>, fuel: usize, b: &'a [u8]) -> P<'
 }
 
 /// §4.1: the whole input is one well-framed class file
-pub fn class_file(known: bool, bs: &[u8]) -> bool {
+pub fn class_file(bs: &[u8]) -> bool {
 	(|| -> Option<bool> {
 		let (magic, r0) = n4(bs)?;
 		if magic != 0xCAFEBABE { return None; }
@@ -144,14 +145,14 @@ pub fn class_file(known: bool, bs: &[u8]) -> bool {
 			match t {
 				1 => { let (n, y) = n2(x)?; if n > y.len() { return None; } utf8s.push((i, &y[..n])); r = &y[n..]; i += 1; }
 				3 | 4 | 9 | 10 | 11 | 12 | 17 | 18 => { r = skip(4, x)?; i += 1; }
-				5 | 6 => { if known { return None; } r = skip(8, x)?; i += 2; }
+				5 | 6 => { r = skip(8, x)?; i += 2; }
 				7 | 8 | 16 | 19 | 20 => { r = skip(2, x)?; i += 1; }
 				15 => { r = skip(3, x)?; i += 1; }
 				_ => return None,
 			}
 		}
 		let fuel = bs.len() + 1;
-		let attributes = |x| tbl2(&|y| attr_info(known, &utf8s, fuel, y), x);
+		let attributes = |x| tbl2(&|y| attr_info(&utf8s, fuel, y), x);
 		let member = |x| attributes(skip(6, x)?);
 		let r = skip(6, r)?;
 		let r = tbl2(&|x| skip(2, x), r)?;
